@@ -238,10 +238,8 @@ class PitchKeys(PartialEvent):
     def freq(self):
         if 'midinote' in self or 'note' in self:
             return self._freq_from_midinote()
-        elif 'degree' in self:
-            return self._freq_from_degree()
         else:
-            return self.default_values['freq']
+            return self._freq_from_degree()
 
     def _freq_from_midinote(self):
         return bi.midicps(self._transposed_midinote())
@@ -265,7 +263,7 @@ class PitchKeys(PartialEvent):
         elif 'freq' in self:
             return self._midinote_from_freq()
         else:
-            return self.default_values['midinote']
+            return self._midinote_from_degree()
 
     def _midi_from_note(self):
         # See comment in keyfunction.
